@@ -60,6 +60,7 @@ static int cg_opt_rich = 0;        /* larger token sets (thorough) */
 static int cg_opt_decor = 1;       /* decorations at all */
 static int cg_opt_blankws = 1;     /* blank lines made of blanks */
 static int cg_opt_nofinalnl = 1;   /* last line without newline as a decoration */
+static int cg_opt_oddquote = 0;   /* C05 only (differential, no model needed): first-line values with an unbalanced or early-closed quote: "q r   and   "q" r */
 static int cg_opt_tiny = 0;        /* minimal token sets: one key, values {empty, v, "q"} (used where the neighbourhood of a line matters, not the tokens) */
 
 static int cg_prev_allows_cont(int i)
@@ -115,13 +116,14 @@ static void cg_build_tables(void)
   if (cg_opt_rich) cgt.keys[cgt.nkeys++] = "key2";
   if (cg.cls == CLS_NONE) cgt.keys[cgt.nkeys++] = "a b";
   if (cg.cls != CLS_NONE) {
-    snprintf(cgt.uv[cgt.nuv++], 16, "%s", "");
+    if (!cg_opt_oddquote) snprintf(cgt.uv[cgt.nuv++], 16, "%s", "");
     snprintf(cgt.uv[cgt.nuv++], 16, "%s", "v");
     if (!cg_opt_tiny) snprintf(cgt.uv[cgt.nuv++], 16, "%s", "v w");
     if (cg_opt_rich) snprintf(cgt.uv[cgt.nuv++], 16, "%s", "1");
+    if (cg_opt_oddquote) { snprintf(cgt.uv[cgt.nuv++], 16, "%s", "\"q r"); snprintf(cgt.uv[cgt.nuv++], 16, "%s", "\"q\" r"); }
     if (!cg_opt_tiny && (cg.cls == CLS_NONBLANK || cg.cls == CLS_MIXED))
       for (const char *d = cg.D; *d; d++) if (*d != ' ' && *d != '\t') snprintf(cgt.uv[cgt.nuv++], 16, "a%cb", *d);
-    if (cg_opt_quoted && cg_opt_tiny) snprintf(cgt.qv[cgt.nqv++], 16, "%s", "q");
+    if (cg_opt_oddquote) ; else if (cg_opt_quoted && cg_opt_tiny) snprintf(cgt.qv[cgt.nqv++], 16, "%s", "q");
     else if (cg_opt_quoted) {
       snprintf(cgt.qv[cgt.nqv++], 16, "%s", "q");
       snprintf(cgt.qv[cgt.nqv++], 16, "%s", " q ");
